@@ -150,4 +150,6 @@ from . import vpsc_pack as _vp
 
 # "honoured when the items fit" is measured with the documented spacings (C01.OPTS incl. the 2-unit line spacing), on the
 # sorted chain (C01.SORT), by a solver that ends feasible (VPSC.FEAS), for layers whose stubs sit where C04 puts them
-RULES = [walls, early, layerwidth, weights, writeback, solve_rule, chain_rule, gap_rule, _lz("c01", "sort_rule", "C01.SORT"), _lz("c01", "opts_rule", "C01.OPTS"), _lz("c01", "alllayers", "C01.ALLLAYERS")] + _vp.FEAS + [_lz("c04", "stubchain_instance", "C04.STUBCHAIN"), _lz("c04", "stubchain", "C04.STUBCHAIN-ALL-N")]
+# each engine starts from a private copy of the defaults and hands the caller's options on: spacing and bounds set on one
+# engine must not leak into the module defaults / other engines (C04.OPTFLOW)
+RULES = [walls, early, layerwidth, weights, writeback, solve_rule, chain_rule, gap_rule, _lz("c01", "sort_rule", "C01.SORT"), _lz("c01", "opts_rule", "C01.OPTS"), _lz("c01", "alllayers", "C01.ALLLAYERS")] + _vp.FEAS + [_lz("c04", "stubchain_instance", "C04.STUBCHAIN"), _lz("c04", "stubchain", "C04.STUBCHAIN-ALL-N"), _lz("c04", "optflow", "C04.OPTFLOW")]
